@@ -135,6 +135,9 @@ class ApiSession:
         wl = self.spec.get("write_fault_late")
         if wl:
             self.port.write_fault_late = (wl["n"], wl.get("exc", "SerialException"))
+        wo = self.spec.get("write_fault_once")
+        if wo:
+            self.port.write_fault_once = (wo["n"], wo.get("exc", "SerialException"))
         return self.port
 
     def dump_api(self, api_obj):
@@ -243,6 +246,16 @@ class ApiSession:
             api.sleep(spec.get("final_wait", 6))
         elif kind == "conn_check":
             a = ynca.YncaApi("virtual://port", (lambda: (api.emit("disc_cb"), api.emit("disc_cb_ret"))) if spec.get("disconnect_cb", True) else None, spec.get("log_size", 0))
+            for _rep in range(spec.get("repeat", 1) - 1):
+                # earlier runs on the same object are not judged (their events are cut off by the marker)
+                try:
+                    a.connection_check()
+                except sched.Hang:
+                    raise
+                except BaseException:  # noqa: BLE001
+                    pass
+                api.sleep(3.0)
+                api.emit("attempt2")
             ev = api.emit("api_call", op="connection_check")
             exc = None
             res = None
